@@ -679,6 +679,65 @@ func CountOnPathsToW(fn *ssa.Function, from ssa.Instruction, weight func(ssa.Ins
 // parameters captured by closures: t0 = new T (p); *t0 = p; … *t0) is the
 // parameter itself; inside the closure a load of the free variable cell
 // resolves to the same parameter.
+// onlyRead: besides its single store, the cell is only loaded — here and in
+// the closures that capture it.
+func onlyRead(cell ssa.Value, depth int) bool {
+	if depth > 3 || cell.Referrers() == nil {
+		return false
+	}
+	for _, r := range *cell.Referrers() {
+		switch x := r.(type) {
+		case *ssa.Store:
+			if x.Addr != cell {
+				return false // the address itself is stored somewhere
+			}
+			if depth > 0 {
+				return false // a closure assigns the variable
+			}
+		case *ssa.UnOp:
+			if x.Op != token.MUL {
+				return false
+			}
+		case *ssa.DebugRef:
+		case *ssa.MakeClosure:
+			fn, ok := x.Fn.(*ssa.Function)
+			if !ok {
+				return false
+			}
+			for i, b := range x.Bindings {
+				if b == cell {
+					if i >= len(fn.FreeVars) || !onlyRead(fn.FreeVars[i], depth+1) {
+						return false
+					}
+				}
+			}
+		default:
+			return false
+		}
+	}
+	return true
+}
+
+// before: instruction a is executed before b on every path to b (same
+// function).
+func before(a, b ssa.Instruction) bool {
+	if a.Parent() != b.Parent() {
+		return false
+	}
+	if a.Block() == b.Block() {
+		for _, in := range a.Block().Instrs {
+			if in == a {
+				return true
+			}
+			if in == b {
+				return false
+			}
+		}
+		return false
+	}
+	return a.Block().Dominates(b.Block())
+}
+
 func Unbox(v ssa.Value) ssa.Value {
 	u, ok := v.(*ssa.UnOp)
 	if !ok || u.Op != token.MUL {
@@ -697,16 +756,34 @@ func Unbox(v ssa.Value) ssa.Value {
 		return v
 	}
 	var stored ssa.Value
+	var store *ssa.Store
 	n := 0
 	for _, r := range *cell.Referrers() {
 		if st, ok := r.(*ssa.Store); ok && st.Addr == cell {
 			n++
-			stored = st.Val
+			stored, store = st.Val, st
 		}
 	}
 	if n == 1 {
 		if p, ok := stored.(*ssa.Parameter); ok {
 			return p
+		}
+		// a local that is assigned once, where it is declared, and only read
+		// afterwards (by the function and by the closures that capture it) is
+		// that value: ctx := &T{…}; visit(func() { ctx.M() }); ctx.N()
+		if cell.Heap && onlyRead(cell, 0) {
+			var at ssa.Instruction = u
+			if u.Parent() != cell.Parent() {
+				at = nil
+				for _, r := range *cell.Referrers() {
+					if mc, ok := r.(*ssa.MakeClosure); ok && mc.Fn == ssa.Value(u.Parent()) {
+						at = mc
+					}
+				}
+			}
+			if at != nil && before(store, at) {
+				return stored
+			}
 		}
 	}
 	return v
